@@ -34,7 +34,11 @@ func c14Histories() [][]Op {
 			Op{K: "pop", C: 0}, Op{K: "pop", C: 2}, Op{K: "pop", C: 1}),
 		// 5: exactly one modified slab and one deletion (the relaxed commit's small-write-set path)
 		h(Op{K: "append", C: 0, V: "limA+"}, Op{K: "commit", N: 1}, Op{K: "remove", C: 0, I: 0}),
-		// 6: map growing into several slabs
+		// 7 (listed first for readability, index 6 below): several inlined children of two different types in ONE
+		// slab, each type used twice (shared type-info table with two entries), plus a compact pair in the map
+		h(Op{K: "append", C: 0, V: "M8:t"}, Op{K: "append", C: 0, V: "M9:t"}, Op{K: "append", C: 0, V: "M8:t"}, Op{K: "append", C: 0, V: "M9:t"},
+			Op{K: "mset", C: 1, Key: 0, V: "Mc:t,t"}, Op{K: "mset", C: 1, Key: 1, V: "M5:t"}, Op{K: "mset", C: 1, Key: 2, V: "Mc:t,t"}, Op{K: "mset", C: 1, Key: 3, V: "M5:t"}, Op{K: "mset", C: 1, Key: 4, V: "M6:t"}, Op{K: "mset", C: 1, Key: 5, V: "M6:t"}),
+		// map growing into several slabs
 		h(Op{K: "mset", C: 1, Key: 0, V: "limM"}, Op{K: "mset", C: 1, Key: 1, V: "limM"}, Op{K: "commit", N: 1},
 			Op{K: "mset", C: 1, Key: 2, V: "limM"}, Op{K: "mset", C: 1, Key: 3, V: "limM"}, Op{K: "mset", C: 1, Key: 4, V: "limM"}, Op{K: "append", C: 3, V: "limA+"}),
 	}
